@@ -225,6 +225,36 @@ def ordered_dates_rule(ctx: Ctx):
     ctx.floor("R11.9", 1)
 
 
+def table_exists_rule(ctx: Ctx):
+    """R11.10: a resource group has no slot table (prepareScheduling builds one for leaves only).  Where available() measures or
+    indexes the table (`len(self.scoreboard)`, `self.scoreboard[i]`) the fact `self.scoreboard is None` is known to be false on
+    every path -- an `if self.scoreboard is None:` whose branch does not leave the function does not establish that."""
+    avail = ctx.repo.func("ResourceScenario.available")
+    g = cfg_of(avail)
+    facts = facts_of(avail)
+    n = 0
+    for x in own_nodes(avail):
+        use = None
+        if isinstance(x, ast.Subscript) and norm(x.value) == "self.scoreboard":
+            use = x
+        elif isinstance(x, ast.Call) and norm(x.func) == "len" and x.args and norm(x.args[0]) == "self.scoreboard":
+            use = x
+        if use is None:
+            continue
+        node = g.node_containing(use)
+        if node is None:
+            continue
+        n += 1
+        cl = facts.holds(node, lambda t, p: (not p) and t == "self.scoreboard is None" or (p and t in ("self.scoreboard is not None", "self.scoreboard")))
+        ctx.ob("R11.10", f"{avail.qual}: {norm(use)[:40]} at line {use.lineno}", (avail, use), cl is not None,
+               "the slot table exists here" if cl is not None else
+               "the slot table can still be None here (a resource group allocated by a task): TypeError inside the scheduler instead of "
+               "an unscheduled task with a warning",
+               key=key_of("R11.10", avail, None, f"table exists {norm(use)[:30]}"))
+    if n < 2:
+        raise AnchorMissing(f"available(): {n} uses of the slot table found")
+
+
 TREE_WORDS = ("children", "kids", "parent", "parents", "adoptees", "stepParents", "ancestors")
 
 
@@ -238,6 +268,7 @@ def run(ctx: Ctx):
     ctx.stats["functions_reachable"] = len(reach)
     divisor_rule(ctx, reach)
     ordered_dates_rule(ctx)
+    table_exists_rule(ctx)
     # ---------------------------------------------------------------- R11.1
     n_while = 0
     undecided = []
@@ -590,6 +621,19 @@ def run(ctx: Ctx):
            "expansion stops with an error when the text outgrows its bound" if grows else
            "only the number of passes is bounded: `macro m [ ${m} ${m} ]` doubles the text on each of the 100 passes and the parser does not return",
            key="R11.5|_expand_macros|size cap")
+    # ... and the bound is fixed before the passes begin: a bound recomputed from the text each pass starts with grows with the text
+    for gtest in grows:
+        bnames = {x.id for x in ast.walk(gtest.test) if isinstance(x, ast.Name) and x.id != "content" and x.id != "len"}
+        for bn in sorted(bnames):
+            defs = [a for a in own_nodes(em) if isinstance(a, (ast.Assign, ast.AnnAssign)) and a.value is not None
+                    and any(isinstance(t, ast.Name) and t.id == bn for t in (a.targets if isinstance(a, ast.Assign) else [a.target]))]
+            moving = [a for a in defs if any(any(a is y for y in ast.walk(w)) for w in caps) and "content" in norm(a.value)]
+            if defs:
+                ctx.ob("R11.5", f"{em.qual}: size bound {bn} is fixed before the passes", (em, (moving or defs)[0]), not moving,
+                       "computed once from the input" if not moving else
+                       f"{bn} is recomputed inside the pass loop from the text of that pass: it grows with the expansion it is meant to bound, "
+                       "so a macro that calls itself a few times per round is never rejected",
+                       key=f"R11.5|_expand_macros|{bn} fixed")
     ctx.floor("R11.1", 30)
     ctx.floor("R11.2", 5)
     ctx.floor("R11.3", 3)
